@@ -458,6 +458,29 @@ func runC14(r *rt.Run) {
 			}
 		}
 	})
+	// discs that end a little short of a pole (100 m .. 90 km: sin r / cos lat
+	// within 1e-9 .. 1e-4 of 1, the steep end of the arc sine), from every
+	// latitude of the dense grid
+	{
+		short := []float64{100, 360, 500, 640, 850, 1000, 2000, 3600, 1e4, 2e4, 5e4, 9e4}
+		r.Bounds["short_of_pole_m"] = short
+		r.ParFor(len(dl), func(i int, w *rt.Worker) {
+			lat := dl[i]
+			for _, lon := range dlon[:3] {
+				for _, d := range short {
+					rr := (90-math.Abs(lat))*math.Pi/180*sphere.R - d
+					if rr < 1 {
+						continue
+					}
+					w.Trans++
+					w.Nontriv++
+					geoRun(w, "rect-shape", lat, lon, rr)
+					geoRun(w, "rect-covers-tangent", lat, lon, rr, 1)
+					geoRun(w, "rect-covers-tangent", lat, lon, rr, -1)
+				}
+			}
+		})
+	}
 	// discs that stop within a few ulps of a pole, for every dense radius and
 	// every latitude 90 - r/R -4..+4 ulps, both hemispheres (no NaN, covers)
 	r.ParFor(len(dr), func(i int, w *rt.Worker) {
